@@ -134,6 +134,26 @@ theorem vok_member : ∀ (kvs : List (Bytes × JV)) (kv : Bytes × JV), kv ∈ k
     · exact ⟨h1.1.1, h1.1.2⟩
     · exact ih hx h1.2
 
+theorem voka_member : ∀ (kvs : List (Bytes × JV)) (kv : Bytes × JV), kv ∈ kvs → VOKa (.obj kvs) →
+    Spec.Utf8.validUtf8 kv.1 = true ∧ VOKa kv.2 := by
+  intro kvs kv hx hv
+  have h1 : shapeAm kvs = true := by simpa [VOKa, shapeA] using hv
+  clear hv
+  induction kvs with
+  | nil => simp at hx
+  | cons y ys ih =>
+    obtain ⟨k, y⟩ := y
+    simp only [shapeAm, Bool.and_eq_true] at h1
+    rcases List.mem_cons.mp hx with rfl | hx
+    · exact ⟨h1.1.1, h1.1.2⟩
+    · exact ih hx h1.2
+
+theorem vokg_member (kvs : List (Bytes × JV)) (kv : Bytes × JV) (hx : kv ∈ kvs) (hv : VOKg (.obj kvs)) :
+    Spec.Utf8.validUtf8 kv.1 = true ∧ VOKg kv.2 := by
+  rcases hv with hv | hv
+  · exact ⟨(vok_member kvs kv hx hv).1, .inl (vok_member kvs kv hx hv).2⟩
+  · exact ⟨(voka_member kvs kv hx hv).1, .inr (voka_member kvs kv hx hv).2⟩
+
 end
 
 /-! ## keys -/
@@ -453,14 +473,14 @@ theorem mapLoop_text (kk : KeyKind) (hk : KeyAgree (deKey env kk) (FromValue.key
             congr 1
             omega
 
-include hext hflt hap in
+include hext hflt in
 /-- maps: `deserialize_map` with the key kind's `MapKey` method against `MapDeserializer` + `MapKeyDeserializer` -/
 theorem agree_map (kk : KeyKind) (hk : KeyAgree (deKey env kk) (FromValue.keyDe kk)) (s : Schema) (f t : Nat) (v : JV)
-    (hv : VOK v) (hd : DepthOK env t v)
+    (hv : VOKg v) (hd : DepthOK env t v)
     (ih : ∀ kvs, v = .obj kvs → ∀ kv ∈ kvs, Agree1w (deTyped env f (t + 1) s) (FromValue.fromValue cfg' ext' s kv.2) (T ext kv.2)) :
     Agree1 (deTyped env (f + 1) t (.map kk s)) (FromValue.fromValue cfg' ext' (.map kk s) v) (T ext v) := by
   intro rest pos hs
-  obtain ⟨c, tl, hT, hc⟩ := T_head ext hext v hv
+  obtain ⟨c, tl, hT, hc⟩ := T_head_g ext hext v hv
   have hw := (headOf_facts hc).1
   have ht := headOf_tests hc
   rw [deTyped_map]
@@ -468,7 +488,7 @@ theorem agree_map (kk : KeyKind) (hk : KeyAgree (deKey env kk) (FromValue.keyDe 
   | obj kvs =>
     have hel : ∀ kv ∈ kvs, Spec.Utf8.validUtf8 kv.1 = true ∧
         Agree1w (deTyped env f (t + 1) s) (FromValue.fromValue cfg' ext' s kv.2) (T ext kv.2) :=
-      fun kv hx => ⟨(vok_member kvs kv hx hv).1, ih kvs rfl kv hx⟩
+      fun kv hx => ⟨(vokg_member kvs kv hx hv).1, ih kvs rfl kv hx⟩
     have hloop := mapLoop_text ext kk hk (deTyped env f (t + 1) s) (FromValue.fromValue cfg' ext' s) kvs hel true []
       ((Tmembers ext kvs ++ 0x7d :: rest).length + 1) rest (pos + 1) (by simp [Tm])
     simp only [Tm, if_true] at hloop
